@@ -1,10 +1,16 @@
 (* Extraction of the executable models to OCaml (ExtrOcamlBasic only; N/Z/positive stay inductive). *)
-From VF Require Import Bytes Meta Lock.
+From VF Require Import Bytes Meta Lock Region Freelist Alloc PageBuf Writer.
 From Coq Require Import ExtrOcamlBasic.
 Extraction Language OCaml.
 Set Extraction KeepSingleton.
 Extraction "model.ml"
   Z.add Z.mul Z.sub Z.div Z.modulo Z.of_nat Z.to_nat Z.eqb Z.ltb Z.leb Z.quotrem
   le_encode le_decode
+  encode_region decode_region region_enc_size optimize merge_region_lists
+  fl_alloc_regions fl_alloc_cont fl_add_region fl_add_regions fl_remove_region release_overflow
+  make_tx data_alloc_regions data_alloc_cont data_free wal_alloc meta_free meta_alloc_regions meta_free_regions
+  commit_step rollback quota data_avail tx_updated
+  page_load page_set_bytes page_modify page_bytes page_free page_flush fresh_page existing_page
+  run_batches spec_disk sort_batch
   lock_apply run_labels thread_step lk_idle
   valid_slot checksum_of read_valid_meta read_valid_meta_win choose decode_header encode_header.
